@@ -72,12 +72,13 @@ Example C14_dialect_first_agrees :
   LazyModel.run (F_dial true) true FUEL st0 h_dial = LazyModel.run (F_dial false) true FUEL st0 h_dial.
 Proof. exact dialect_first_agrees. Qed.
 
-Theorem C14_dialect_first_selfref_raises :
-  nth_error (LazyModel.run F_self true FUEL st0 [Define 0; Call 0 to_msgpack (Some 1) (V [(0, V [])])]) 1 = Some (Exc EAttrMeth) /\
-  nth_error (LazyModel.run F_self true FUEL st0 [Define 0; Call 0 to_msgpack None (V [(0, V [])]); Call 0 to_msgpack (Some 1) (V [(0, V [])])]) 2 =
+Example C14_dialect_first_selfref_agrees : forall byname,
+  nth_error (LazyModel.run (F_self byname) true FUEL st0 [Define 0; Call 0 to_msgpack (Some 1) (V [(0, V [])])]) 1 =
+    Some (Out (Node 0 (MN true 1 false 0) (Some 1) [Node 0 (MN true 1 false 0) (Some 1) []])) /\
+  nth_error (LazyModel.run (F_self byname) true FUEL st0
+               [Define 0; Call 0 to_msgpack None (V [(0, V [])]); Call 0 to_msgpack (Some 1) (V [(0, V [])])]) 2 =
     Some (Out (Node 0 (MN true 1 false 0) (Some 1) [Node 0 (MN true 1 false 0) (Some 1) []])).
-Proof. exact dialect_first_selfref_raises. Qed.
-Print Assumptions C14_dialect_first_selfref_raises.
+Proof. exact dialect_first_selfref_agrees. Qed.
 
 Theorem C14_build_cycle_diverges :
   nth_error (LazyModel.run (F_cyc false) true FUEL st0 h_cyc) 2 = Some (Exc EBuildCycle) /\
